@@ -44,7 +44,13 @@ P.update({
             "Trusts serde_json's own value parser as the reference for 'is JSON' and for structural comparison.", "4 C17"),
 })
 
-CLAIMED = ["C01", "C02", "C03", "C04", "C05", "C06", "C07", "C17"]
+P.update({
+    "C14": ("exploration", "runtime monitor with controlled scheduling: blocking probe callback parks every pool thread, a central scheduler enumerates (DFS + state pruning) and samples schedules of the REAL pool; oracles on job start/quiescence; hook-free socket cross-check",
+            "The real ThreadPool is driven through cfg-guarded probes whose callback parks each pool thread and the acceptor; a scheduler grants one step at a time, enumerating all schedules at probe granularity by DFS with abstract-state pruning for initial 1-3 x max 1-4 x 1-5 long-lived jobs (capped per configuration in quick) plus seeded random walks. Oracles: job bodies running <= max at every state; at every pool-quiescent state (acceptor between execute() calls, no pool thread enabled) no job is queued while fewer than max run. A hook-free cross-check counts simultaneously blocked calls through real listen() sockets (burst and one-by-one arrival) and proves stranding logically by a further connection.",
+            "Interleavings finer than probe granularity (inside std's channel/locks) are only sampled (TSan/Miri overlays in thorough). Worker/job symmetry reduction assumes workers in the same local state are interchangeable.", "4 C14"),
+})
+
+CLAIMED = ["C01", "C02", "C03", "C04", "C05", "C06", "C07", "C14", "C17"]
 
 ALL = ["C%02d" % i for i in range(1, 21)]
 
